@@ -86,24 +86,27 @@ def judge_tax(ctx, g, impl, model):
                         ctx.fail('wup-self-is-1', g, dict(where, got=e['wup']))
                     if r['wup'] != e['wup']:
                         ctx.fail('wup-symmetric', g, dict(where, ab=e['wup'], ba=r['wup']))
-                    if not cyclic:
-                        # the documented formula for some lowest common hypernym
-                        cands = []
-                        for c in lows:
-                            if c == -1:
-                                ra = [dist[a][x] for x in range(n) if not adj[x] and x in dist[a]]
-                                rb = [dist[b][x] for x in range(n) if not adj[x] and x in dist[b]]
-                                i, j, k = min(ra) + 1, min(rb) + 1, 1
-                            else:
-                                # "shortest path distance" = len(shortest_path(x, lcs)), which may
-                                # run through another common hypernym of x and lcs
-                                i = min(dist[a][z] + dist[c][z] for z in (set(dist[a]) & set(dist[c])))
-                                j = min(dist[b][z] + dist[c][z] for z in (set(dist[b]) & set(dist[c])))
-                                ls = [len(p) for p in chains[c]]
-                                k = (max(ls) if ls else 0) + 1
-                            cands.append((2 * k) / (i + j + 2 * k))
-                        if e['wup'] not in cands:
-                            ctx.fail('wup=2k/(i+j+2k)-for-a-lowest-common-hypernym', g, dict(where, got=e['wup'], candidates=cands))
+                    # the documented formula for one of the lowest common hypernyms (the set itself
+                    # is judged by C13; on cyclic graphs 'depth' is what the library reports)
+                    cands = []
+                    droot = lambda x: min([len(p) for p in chains[x]] or [0]) + 1
+                    for c in lows:
+                        if c == -1:
+                            i, j, k = droot(a), droot(b), 1
+                        else:
+                            # "shortest path distance" = len(shortest_path(x, lcs)), which may
+                            # run through another common hypernym of x and lcs (or the fake root)
+                            def splen(x, y):
+                                v = [dist[x][z] + dist[y][z] for z in (set(dist[x]) & set(dist[y]))]
+                                if root:
+                                    v.append(droot(x) + droot(y))
+                                return min(v)
+                            i, j = splen(a, c), splen(b, c)
+                            ls = [len(p) for p in chains[c]]
+                            k = (max(ls) if ls else 0) + 1
+                        cands.append((2 * k) / (i + j + 2 * k))
+                    if e['wup'] not in cands:
+                        ctx.fail('wup=2k/(i+j+2k)-for-a-lowest-common-hypernym', g, dict(where, got=e['wup'], candidates=cands))
                 # lch
                 if sp == 'error':
                     if e['lch'] != 'error':
